@@ -3,6 +3,7 @@ package c15
 
 import (
 	"bytes"
+	"errors"
 	"fmt"
 	"sync"
 	"testing"
@@ -105,7 +106,8 @@ type richTransport interface {
 }
 
 func kindOf(err error) int {
-	if te, ok := err.(thrift.TTransportException); ok {
+	var te thrift.TTransportException
+	if errors.As(err, &te) { // also when wrapped
 		return te.TypeId()
 	}
 	return -1
@@ -239,7 +241,7 @@ func run(c Case) (pbt.Outcome, error) {
 			case closed:
 				if err == nil {
 					errs.Addf("%s after Close succeeded", what)
-				} else if c.Sinks == 0 && kindOf(err) != thrift.NOT_OPEN {
+				} else if kindOf(err) != thrift.NOT_OPEN {
 					errs.Addf("%s after Close: error %v (kind %d), want a not-open error", what, err, kindOf(err))
 				}
 			case len(model)+n > thriftudp.MaxLength:
@@ -312,6 +314,8 @@ func run(c Case) (pbt.Outcome, error) {
 			case closed:
 				if err == nil {
 					errs.Addf("%s after Close succeeded", what)
+				} else if kindOf(err) != thrift.NOT_OPEN {
+					errs.Addf("%s after Close: error %v (kind %d), want a not-open error", what, err, kindOf(err))
 				}
 			case len(dead) > 0:
 				faultSeen = true
